@@ -144,7 +144,8 @@ pub enum Op {
     /// JoinHandle::is_finished(): 0/1; SKIP without handle or for thread tasks
     IsFinished(usize),
     // ---- BatchSemaphore ------------------------------------------------------------------
-    /// acquire(n) (blocking in threads, awaited in async tasks): 1 = Ok, 0 = closed
+    /// acquire(n) (blocking in threads, awaited in async tasks): 1 = Ok, 0 = closed; SKIP while this
+    /// task keeps a pending acquisition (AcqStart)
     Acquire(usize, usize),
     /// try_acquire(n): 1 = Ok, 0 = NoPermits, 2 = Closed
     TryAcquire(usize, usize),
